@@ -46,7 +46,14 @@ def main(argv=None) -> int:
         project = Project(args.repo)
         mod.run(project, rep, args.tier)
         if args.tier == "thorough" and not args.dry:
-            from .selftest.run import neutral_run, sensitivity
+            from .selftest.run import neutral_run, seeded_runs, sensitivity
+            sr = seeded_runs(pid, project.repo)
+            rep.extra["seeded_changes"] = sr
+            for r in sr:
+                if r["got"] == "patch-does-not-apply":
+                    rep.note(f"seeded change {r['seed']} no longer applies (source changed)")
+                elif r["got"] != "refute" and r.get("primary"):
+                    rep.errors.append(f"SELFTEST seeded change {r['seed']} is not refuted (checker gave {r['got']})")
             nr = neutral_run(pid, project.repo)
             rep.extra["neutral_variant"] = nr
             if nr["exit"] != 0:
